@@ -328,7 +328,6 @@ func (oe *outEval) safeStructContent(v ssa.Value, b *ssa.BasicBlock, fr *oframe)
 	return lxAny(), true
 }
 
-
 type outEval struct {
 	p        *Program
 	s        *Summarizer
